@@ -102,6 +102,30 @@ func checkC09(c c09Case) string {
 			return fmt.Sprintf("Add(%d);Add(%d) did not restore unclamped cue #%d: [%d,%d) vs original [%d,%d)", c.D, -c.D, w.idx, int64(it.StartAt), int64(it.EndAt), orig.S, orig.E)
 		}
 	}
+	// a third shift of the same cue objects (forwards: nothing to clamp or remove unless an end is still at or below
+	// zero): every cue moves by exactly that much, whatever happened to it before
+	type se struct{ s, e int64 }
+	var now []se
+	for _, it := range b.sub.Items {
+		now = append(now, se{int64(it.StartAt), int64(it.EndAt)})
+	}
+	const third int64 = 7 * nsMs
+	kept := append([]*astisub.Item(nil), b.sub.Items...)
+	b.sub.Add(time.Duration(third))
+	j := 0
+	for i, it := range kept {
+		if now[i].e+third <= 0 {
+			continue
+		}
+		ws := now[i].s + third
+		if ws < 0 {
+			ws = 0
+		}
+		if j >= len(b.sub.Items) || b.sub.Items[j] != it || int64(it.StartAt) != ws || int64(it.EndAt) != now[i].e+third {
+			return fmt.Sprintf("third shift (by %d) of cues already shifted by %d and %d: cue that was [%d,%d) is [%d,%d), specification says [%d,%d)", third, c.D, -c.D, now[i].s, now[i].e, int64(it.StartAt), int64(it.EndAt), ws, now[i].e+third)
+		}
+		j++
+	}
 	return ""
 }
 
